@@ -11,7 +11,7 @@ import ast
 
 import z3
 
-from .engine import (Atom, B, I, Opaque, BoundMethod, ClassV, Closure, Coll, DictV, ModuleV, NONE, NoneV, Obj, Scalar, TupleV,
+from .engine import (Atom, B, I, Opaque, OpaqueFn, BoundMethod, ClassV, Closure, Coll, DictV, ModuleV, NONE, NoneV, Obj, Scalar, TupleV,
                      Unsupported, diff, empty_set, fresh, inter, mk_set, nonempty, set_sort, seteq, singleton, subset,
                      tuple_sort, union, val_of, z3_of)
 
@@ -176,7 +176,7 @@ class Lib:
     # ---- names
     def global_name(self, ex, name, st):
         if name in ("UndirectedGraph", "Independencies", "IndependenceAssertion", "DAG", "PDAG", "BayesianNetwork", "Graph",
-                    "DiGraph"):
+                    "DiGraph", "MarkovNetwork"):
             return ClassV(name)
         if name == "logger":
             return ModuleV("logger")
@@ -251,6 +251,20 @@ class Lib:
         if name in GRAPH_CLASSES and not args and not kwargs:
             ex.used_lib.add(f"{name}() -> empty graph")
             return empty_graph(name)
+        if name in ("MarkovNetwork", "UndirectedGraph") and len(args) == 1 and not kwargs:
+            # MarkovNetwork(ebunch): empty undirected graph + add_edges_from(ebunch); requires no self loops
+            g = empty_graph(name, directed=False)
+            if name == "MarkovNetwork":
+                g.fields["factors"] = Coll("list", Opaque, None, items=[])
+                g.fields["__opaque__"] = {"add_factors": OpaqueFn("add_factors", Opaque, pure=False)}
+            c = ex.as_coll(args[0], st)
+            if c.mem is not None:
+                a = fresh("a", Atom)
+                if name == "MarkovNetwork":
+                    ex.oblige(st, z3.ForAll([a], z3.Not(c.mem[PairAA.mk(a, a)])), "call.MarkovNetwork.add_edge.no-self-loop")
+                self.graph_method(ex, "Graph", g, "add_edges_from", [c], {}, st)
+            ex.used_lib.add(f"{name}(ebunch) -> undirected graph on the listed edges")
+            return g
         if name == "IndependenceAssertion" and len(args) == 3:
             es = [ex.as_coll(a, st, Atom) for a in args]
             es = [e.mem if e.mem is not None else empty_set(Atom) for e in es]
